@@ -218,6 +218,15 @@ def gen_case(rng, tier, est=None, seeded=None, long_lived=False):
                 o["backend"] = "np"
                 o.pop("sched", None)
                 o["rs"] = rng.randint(0, 1000)  # a sibling of the sweep has another seed
+    if n_fits > 10:
+        # long histories stay cheap: mostly in-memory fits, no thread-level simulation
+        for o in ops:
+            if o.get("backend") not in (None, "np"):
+                if rng.random() < 0.8:
+                    o["backend"] = "np"
+                    o.pop("sched", None)
+                elif o["sched"]["mode"] == "threads":
+                    o["sched"] = dict(o["sched"], mode="shared")
     case["chunks"] = chunks
     case["ops"] = ops
     # an "integer random_state" may be a Python int or any NumPy integer scalar
